@@ -35,6 +35,8 @@ def failing_keys(prop: str, overlay: Optional[Dict[str, str]]) -> Tuple[set, Opt
         fails = {o.key for r in results for o in r.obligations if not o.ok}
         if not fails:
             for r in results:
+                if getattr(r, "blind", None):
+                    return set(), r.blind
                 if len(r.obligations) < r.floor:
                     return set(), f"floor {r.rule}"
     except AnalysisError as e:
@@ -214,18 +216,28 @@ class SplitIsinstance(ast.NodeTransformer):
 
 
 class CompToLoop(ast.NodeTransformer):
-    """name = [elt for t in it if c]  ->  name = []; for t in it: if c: name.append(elt)     (single generator, statement level)"""
+    """name = [elt for t in it if c]  ->  name = []; for t in it: if c: name.append(elt)     (single generator, statement level);
+    likewise {k: v for ...} -> name = {}; ... name[k] = v   and   {e for ...} -> name = set(); ... name.add(e)"""
     def _block(self, stmts):
         out=[]
         for st in stmts:
-            if isinstance(st,ast.Assign) and len(st.targets)==1 and isinstance(st.targets[0],ast.Name) and isinstance(st.value,ast.ListComp) and len(st.value.generators)==1 and not st.value.generators[0].is_async:
+            if isinstance(st,ast.Assign) and len(st.targets)==1 and isinstance(st.targets[0],ast.Name) and isinstance(st.value,(ast.ListComp,ast.DictComp,ast.SetComp)) and len(st.value.generators)==1 and not st.value.generators[0].is_async:
                 g=st.value.generators[0]; name=st.targets[0].id
                 used={n.id for n in ast.walk(st.value) if isinstance(n,ast.Name)}
                 if name in used:
                     out.append(st); continue
-                body=[ast.Expr(ast.Call(func=ast.Attribute(value=ast.Name(id=name,ctx=ast.Load()),attr='append',ctx=ast.Load()),args=[st.value.elt],keywords=[]))]
+                ref=ast.Name(id=name,ctx=ast.Load())
+                if isinstance(st.value,ast.ListComp):
+                    body=[ast.Expr(ast.Call(func=ast.Attribute(value=ref,attr='append',ctx=ast.Load()),args=[st.value.elt],keywords=[]))]
+                    empty=ast.List(elts=[],ctx=ast.Load())
+                elif isinstance(st.value,ast.SetComp):
+                    body=[ast.Expr(ast.Call(func=ast.Attribute(value=ref,attr='add',ctx=ast.Load()),args=[st.value.elt],keywords=[]))]
+                    empty=ast.Call(func=ast.Name(id='set',ctx=ast.Load()),args=[],keywords=[])
+                else:
+                    body=[ast.Assign(targets=[ast.Subscript(value=ref,slice=st.value.key,ctx=ast.Store())],value=st.value.value)]
+                    empty=ast.Dict(keys=[],values=[])
                 for c in reversed(g.ifs): body=[ast.If(test=c,body=body,orelse=[])]
-                out.append(ast.Assign(targets=[ast.Name(id=name,ctx=ast.Store())],value=ast.List(elts=[],ctx=ast.Load())))
+                out.append(ast.Assign(targets=[ast.Name(id=name,ctx=ast.Store())],value=empty))
                 out.append(ast.For(target=g.target,iter=g.iter,body=body,orelse=[]))
             else: out.append(st)
         return out
